@@ -62,6 +62,8 @@ TRANSLATORS = [
     ('translate_numparse.py', 'NumParseTables', 'numparse', 'Proofs/NumParseSrc.v'),
     ('translate_vser.py', 'VserTables', 'vser', 'Proofs/VserSrc.v'),
     ('translate_vacc.py', 'VaccTables', 'vacc', 'Proofs/VaccSrc.v'),
+    ('translate_str.py', 'StrTables', 'str', 'Proofs/StrSrc.v'),
+    ('translate_vde.py', 'VdeTables', 'vde', 'Proofs/VdeSrc.v'),
 ]
 TRANSLATORS = [t for t in TRANSLATORS if os.path.exists(os.path.join(VERIF, 'tools', t[0]))]
 
